@@ -27,7 +27,7 @@ ASSOC = {'n': 'associativity::no_assoc', 'l': 'associativity::ltor', 'r': 'assoc
 def mode_defines(modes):
     mask = 0
     for m in modes:
-        if m in (0, 1, 7, 8, 9, 12, 13): mask |= 1
+        if m in (0, 1, 7, 8, 9, 12, 13, 14): mask |= 1
         elif m in (5, 6): mask |= 1 << 5
         elif m < 20: mask |= 1 << m
     d = ['-DVF_MODES=0x%xu' % mask]
